@@ -82,6 +82,9 @@ def _build(case):
     else:
         y = X @ np.array(case["beta"][:X.shape[1]]) + np.array(case["ynoise"][:n])
     w = None if case["w"] is None else np.array(case["w"][:n], dtype=np.float64)
+    if w is not None:
+        for zi in case.get("zero_w", []):
+            w[zi % n] = 0.0            # a row of weight zero still belongs to its bucket's training set
     Q = np.vstack([np.array(case["Q"], dtype=np.float64).reshape(-1, X.shape[1]), X[:: max(1, n // 5)]])
     qk = case.get("qkind", "float64")
     if qk in ("float32", "int64"):
@@ -134,7 +137,13 @@ def check(case):
         yin = pandas.Series(y, index=idx)
         win = None if w is None else pandas.Series(w, index=idx)
     facts["ykind"] = case.get("ykind", "array")
-    r = m.fit(Xin, yin, sample_weight=win)
+    try:
+        r = m.fit(Xin, yin, sample_weight=win)
+    except ValueError as e:
+        if w is not None and (w == 0).any() and "at least one non-zero" in str(e):
+            # a bucket (or a discretizer) whose rows all weigh zero: the inner scikit-learn estimator refuses such a training set itself
+            return Outcome(["inner-estimator-refuses-all-zero-weights"], False)
+        raise
     require(r is m, "fit:not-self", "", facts)
     require(np.array_equal(X, X0) and np.array_equal(y, y0) and (w is None or np.array_equal(w, w0)), "input-modified", "", facts)
 
@@ -238,7 +247,7 @@ def check(case):
     labels = ["clf" if classifier else "reg", "binner=" + case["binner"]["kind"], "est=" + case["estimator"]["kind"],
               "buckets=1" if nb == 1 else ("buckets<=4" if nb <= 4 else "buckets>4"), "unseen-bucket" if unseen else "all-seen",
               "weights" if w is not None else "no-weights", "n_jobs=%s" % case["n_jobs"], "missing-class" if missing_class else "no-missing-class",
-              "train:" + facts["xkind"], "query:" + facts["qkind"], "y:" + facts["ykind"]]
+              "train:" + facts["xkind"], "query:" + facts["qkind"], "y:" + facts["ykind"], "zero-weights" if (w is not None and (w == 0).any()) else "no-zero-weight"]
     return Outcome(labels, nb >= 2 and (unseen or missing_class or w is not None or case["n_jobs"] not in (None, 1)))
 
 
@@ -275,7 +284,7 @@ def _cases(draw, tier="quick"):
                 binner=binner, estimator=est, n_jobs=draw(st.sampled_from([None, 1, 2, 2, 4])), random_state=draw(st.one_of(st.none(), st.integers(0, 99))),
                 seed=draw(st.integers(0, 2**31 - 2)), Q=Q, xkind=draw(st.sampled_from(["array", "array", "frame"])),
                 qkind=draw(st.sampled_from(["float64", "float64", "float32", "int64", "frame"])),
-                ykind=draw(st.sampled_from(["array", "array", "series"])), index_perm=draw(st.lists(st.integers(0, 10**6), min_size=50, max_size=50)))
+                ykind=draw(st.sampled_from(["array", "array", "series"])), zero_w=draw(st.lists(st.integers(0, 49), max_size=4)) if draw(st.integers(0, 3)) == 0 else [], index_perm=draw(st.lists(st.integers(0, 10**6), min_size=50, max_size=50)))
 
 
 CLAUSES = [
